@@ -38,6 +38,7 @@ import (
 	"strconv"
 	"strings"
 	"sync"
+	"sync/atomic"
 	"testing"
 	"time"
 	"unicode"
@@ -96,8 +97,12 @@ type zvgGRun struct {
 	IP      string      `json:"ip"`
 	Tid     string      `json:"tid"`
 	Algo    int         `json:"algo"`
-	Val     uint64      `json:"val"`  // configured validity; in recorded scenarios capped at 2^31-1 (TLC integers)
-	Valx    string      `json:"valx"` // the configured validity as decimal text (any uint64); "" = Val
+	Val     uint64      `json:"val"`   // configured validity; in recorded scenarios capped at 2^31-1 (TLC integers)
+	Valx    string      `json:"valx"`  // the configured validity as decimal text (any uint64); "" = Val
+	Valx2   string      `json:"valx2"` // second honest reading (vform "frac": rounded up); otherwise = valx
+	Vform   string      `json:"vform"` // how the configuration file writes cert_validity_sec (see Gensign!AcceptableVal)
+	Delay   string      `json:"delay"` // "none" | "short" | "long" | "vlong": the agent answers the sign request late
+	Crep    string      `json:"crep"`  // "cert" | "agentkey" | "wrapper": representation of the certificates handed to Run
 	Ids     []zvgGIdent `json:"ids"`
 	Dir     zvgGDir     `json:"dir"`
 	Ans     string      `json:"ans"`
@@ -434,6 +439,49 @@ func (p *zvgGsProxy) loop() {
 		}
 	}
 }
+
+// zvgValText renders the configured validity v the way the scenario's vform says the configuration file writes it.
+func zvgValText(vform string, v uint64) string {
+	d := strconv.FormatUint(v, 10)
+	switch vform {
+	case "float0":
+		return d + ".0"
+	case "exp":
+		return strconv.FormatFloat(float64(v), 'e', -1, 64)
+	case "frac":
+		return d + ".5"
+	case "neg":
+		if v == 0 {
+			return "-1"
+		}
+		return "-" + d
+	case "str":
+		return `"` + d + `"`
+	case "str0":
+		return `"0` + d + `"`
+	case "strhex":
+		return `"0x` + strconv.FormatUint(v, 16) + `"`
+	case "strus":
+		if len(d) < 2 {
+			return `"` + d + `_"`
+		}
+		return `"` + d[:1] + "_" + d[1:] + `"`
+	case "strsp":
+		return `" ` + d + `"`
+	case "bool":
+		return "true"
+	case "null":
+		return "null"
+	}
+	return d
+}
+
+// zvgWrapCert is an ssh.PublicKey implementation around a certificate that is not the concrete *ssh.Certificate.
+type zvgWrapCert struct{ c *ssh.Certificate }
+
+func (w zvgWrapCert) Type() string                                 { return w.c.Type() }
+func (w zvgWrapCert) Marshal() []byte                              { return w.c.Marshal() }
+func (w zvgWrapCert) Verify(data []byte, sig *ssh.Signature) error { return w.c.Verify(data, sig) }
 
 func zvgCapVal(v uint64) uint64 {
 	if v > 2147483647 {
@@ -789,6 +837,7 @@ type zvgStubCA struct {
 	rnd     *mrand.Rand
 	server  *zvgFakeCA
 	inner   csr.Signer
+	crep    string
 }
 
 func (c *zvgStubCA) Sign(ctx context.Context, req *proto.SSHCertificateSigningRequest) ([]ssh.PublicKey, []string, error) {
@@ -864,6 +913,21 @@ func (c *zvgStubCA) Sign(ctx context.Context, req *proto.SSHCertificateSigningRe
 	}
 	rec.N = len(recs)
 	push(recs)
+	// the same certificates in another representation of ssh.PublicKey
+	if c.crep != "" && c.crep != "cert" {
+		out := make([]ssh.PublicKey, len(certs))
+		for i, pk := range certs {
+			out[i] = pk
+			if ct, ok := pk.(*ssh.Certificate); ok {
+				if c.crep == "agentkey" {
+					out[i] = &agent.Key{Format: ct.Type(), Blob: ct.Marshal(), Comment: "wire form"}
+				} else {
+					out[i] = zvgWrapCert{ct}
+				}
+			}
+		}
+		certs = out
+	}
 	return certs, comments, err
 }
 
@@ -886,11 +950,12 @@ type zvgGInst struct {
 	known  []ssh.PublicKey
 
 	// reuse mode (zvgGCase.Reuse)
-	px     *zvgGsProxy
-	regH   gensign.Handler
-	fixVal uint64
-	fixIds []zvgGIdent
-	fixed  bool
+	px       *zvgGsProxy
+	regH     gensign.Handler
+	fixVal   uint64
+	fixVform string
+	fixIds   []zvgGIdent
+	fixed    bool
 }
 
 var zvgNearMiss = map[string][]string{
@@ -1145,6 +1210,18 @@ func (g *zvgGInst) runOne(ri int, run *zvgGRun, pre []zvgGID) (*zvgGRec, []zvgGI
 			run.Val = v
 		}
 	}
+	if run.Vform == "" {
+		run.Vform = "num"
+	}
+	if run.Vform == "null" {
+		run.Val = defaultCertValiditySec // nothing configured: the handler's default
+	}
+	if run.Delay == "" {
+		run.Delay = "none"
+	}
+	if run.Crep == "" {
+		run.Crep = "cert"
+	}
 	// ---- concrete inputs (pairwise distinct) ----
 	cv := zvgGConc{}
 	used := map[string]bool{}
@@ -1211,9 +1288,9 @@ func (g *zvgGInst) runOne(ri int, run *zvgGRun, pre []zvgGID) (*zvgGRec, []zvgGI
 		cv.dirPath = filepath.Join(g.tmp, "keys")
 		os.RemoveAll(cv.dirPath)
 		if g.fixed {
-			run.Val, run.Ids = g.fixVal, g.fixIds
+			run.Val, run.Ids, run.Vform = g.fixVal, g.fixIds, g.fixVform
 		} else {
-			g.fixVal, g.fixIds, g.fixed = run.Val, run.Ids, true
+			g.fixVal, g.fixIds, g.fixVform, g.fixed = run.Val, run.Ids, run.Vform, true
 		}
 	} else {
 		cv.dirPath = filepath.Join(g.tmp, fmt.Sprintf("keys%d", ri))
@@ -1242,7 +1319,7 @@ func (g *zvgGInst) runOne(ri int, run *zvgGRun, pre []zvgGID) (*zvgGRec, []zvgGI
 		kids[zvgAlgoText(r, id.A, id.F)] = id.ID
 	}
 	confObj := map[string]interface{}{"handlers": map[string]interface{}{HandlerName: map[string]interface{}{
-		"pub_key_dir": cv.dirPath, "key_identifiers": kids, "cert_validity_sec": run.Val}}}
+		"pub_key_dir": cv.dirPath, "key_identifiers": kids, "cert_validity_sec": json.RawMessage(zvgValText(run.Vform, run.Val))}}}
 	confBytes, _ := json.Marshal(confObj)
 	confPath := filepath.Join(g.tmp, fmt.Sprintf("conf%d.json", ri))
 	if err := os.WriteFile(confPath, confBytes, 0o600); err != nil {
@@ -1294,6 +1371,7 @@ func (g *zvgGInst) runOne(ri int, run *zvgGRun, pre []zvgGID) (*zvgGRec, []zvgGI
 			heldU = true
 		}
 	}
+	var slowInFlight int32
 	script := func(idx int, kind string, req []byte) zvgGsAction {
 		if fk, ok := agF[idx]; ok {
 			switch fk {
@@ -1307,6 +1385,18 @@ func (g *zvgGInst) runOne(ri int, run *zvgGRun, pre []zvgGID) (*zvgGRec, []zvgGI
 		}
 		if kind != "sign" {
 			return zvgGsAction{kind: "pass", fault: "none"}
+		}
+		if run.Delay != "none" {
+			atomic.AddInt32(&slowInFlight, 1)
+			defer atomic.AddInt32(&slowInFlight, -1)
+		}
+		switch run.Delay {
+		case "short":
+			time.Sleep(500 * time.Millisecond)
+		case "long":
+			time.Sleep(11500 * time.Millisecond)
+		case "vlong":
+			time.Sleep(35 * time.Second)
 		}
 		var sr zvgSignReq
 		if err := ssh.Unmarshal(req, &sr); err != nil {
@@ -1436,6 +1526,7 @@ func (g *zvgGInst) runOne(ri int, run *zvgGRun, pre []zvgGID) (*zvgGRec, []zvgGI
 	px.begin(script, onFrame)
 	// ---- handlers ----
 	var hs []gensign.Handler
+	notStarted := false
 	for i, hk := range run.Hs {
 		var inner gensign.Handler
 		switch hk {
@@ -1445,7 +1536,10 @@ func (g *zvgGInst) runOne(ri int, run *zvgGRun, pre []zvgGID) (*zvgGRec, []zvgGI
 			} else {
 				inner, err = NewHandler(gconf, px.client)
 				if err != nil {
-					return nil, nil, fmt.Errorf("NewHandler: %v", err)
+					// the configuration is refused: no handler, no run (and no handler object whose configuration later runs share)
+					notStarted = true
+					g.fixed = false
+					break
 				}
 				if g.c.Reuse {
 					g.regH = inner
@@ -1456,6 +1550,9 @@ func (g *zvgGInst) runOne(ri int, run *zvgGRun, pre []zvgGID) (*zvgGRec, []zvgGI
 		default:
 			return nil, nil, fmt.Errorf("unknown handler kind %q", hk)
 		}
+		if notStarted {
+			break
+		}
 		hs = append(hs, &zvgRecH{inner: inner, idx: i + 1, rc: rc, panicAt: hF[i+1]})
 	}
 	caSrv, realSigner, caErr := zvgRealSigner()
@@ -1463,7 +1560,7 @@ func (g *zvgGInst) runOne(ri int, run *zvgGRun, pre []zvgGID) (*zvgGRec, []zvgGI
 		return nil, nil, fmt.Errorf("fake CA / crypki.NewSigner: %v", caErr)
 	}
 	ca := &zvgStubCA{ca: g.ca, rc: rc, ncert: run.Ncert, plain: run.PlainCA, flts: caF, serial: &g.serial, plainPK: g.O.Pub, rnd: r,
-		server: caSrv, inner: realSigner}
+		server: caSrv, inner: realSigner, crep: run.Crep}
 	// ---- request parameters: built the way production builds them, csr.NewReqParam over the forced-command environment
 	// (SSH_ORIGINAL_COMMAND in the JSON or the legacy format, LOGNAME, SSH_CONNECTION, argv); a hand-built value only
 	// when NewReqParam cannot produce the scenario
@@ -1519,21 +1616,30 @@ func (g *zvgGInst) runOne(ri int, run *zvgGRun, pre []zvgGID) (*zvgGRec, []zvgGI
 		pan bool
 	}
 	ch := make(chan res, 1)
-	go func() {
-		var out res
-		defer func() {
-			if rv := recover(); rv != nil {
-				out.pan = true
-			}
-			ch <- out
-		}()
-		out.err = gensign.Run(context.Background(), param, hs, ca)
-	}()
 	var out res
-	select {
-	case out = <-ch:
-	case <-time.After(60 * time.Second):
-		return nil, nil, fmt.Errorf("gensign.Run did not return within 60 s")
+	if !notStarted {
+		go func() {
+			var out res
+			defer func() {
+				if rv := recover(); rv != nil {
+					out.pan = true
+				}
+				ch <- out
+			}()
+			out.err = gensign.Run(context.Background(), param, hs, ca)
+		}()
+		select {
+		case out = <-ch:
+		case <-time.After(90 * time.Second):
+			return nil, nil, fmt.Errorf("gensign.Run did not return within 90 s")
+		}
+		// a slow agent may still be answering a request the code stopped waiting for: let the proxy finish the frame
+		for i := 0; i < 450 && atomic.LoadInt32(&slowInFlight) > 0; i++ {
+			time.Sleep(100 * time.Millisecond)
+		}
+		if run.Delay != "none" {
+			time.Sleep(100 * time.Millisecond)
+		}
 	}
 	if !g.c.Reuse {
 		px.close()
@@ -1543,6 +1649,9 @@ func (g *zvgGInst) runOne(ri int, run *zvgGRun, pre []zvgGID) (*zvgGRec, []zvgGI
 	px.mu.Unlock()
 	obs.Err = zvgErrKind(out.err)
 	obs.Pan = out.pan
+	if notStarted {
+		obs.Err = "NewHandler"
+	}
 	post, err := g.observe()
 	if err != nil {
 		return nil, nil, err
@@ -1552,6 +1661,10 @@ func (g *zvgGInst) runOne(ri int, run *zvgGRun, pre []zvgGID) (*zvgGRec, []zvgGI
 	sc.Dir = dirRec
 	sc.Wire = wire
 	sc.Val, sc.Valx = zvgCapVal(run.Val), strconv.FormatUint(run.Val, 10)
+	sc.Valx2 = sc.Valx
+	if run.Vform == "frac" {
+		sc.Valx2 = strconv.FormatUint(run.Val+1, 10)
+	}
 	if wire != "json" {
 		sc.Hard = map[string]bool{"1": true, "t": true, "T": true, "TRUE": true, "true": true, "True": true}[wire]
 	}
@@ -1704,6 +1817,20 @@ func zvgRandomCase(n int, maxRuns int) zvgGCase {
 				9007199254740991, 9007199254740992, 9223372036854775808}[r.Intn(12)]
 		}
 		run.Valx = strconv.FormatUint(run.Val, 10)
+		if r.Intn(12) == 0 {
+			// the configuration writes the number as some other JSON text
+			run.Vform = []string{"float0", "exp", "frac", "neg", "str", "str0", "strhex", "strus", "strsp", "bool", "null"}[r.Intn(11)]
+			if run.Val > 315360000 || run.Val == 0 {
+				run.Val = uint64(1 + r.Intn(315360000))
+			}
+			run.Valx = strconv.FormatUint(run.Val, 10)
+		}
+		if r.Intn(7) == 0 {
+			run.Crep = []string{"agentkey", "wrapper"}[r.Intn(2)]
+		}
+		if r.Intn(40) == 0 {
+			run.Delay = "short"
+		}
 		// key identifiers: at most one entry per algorithm
 		forms := []string{"lower", "upper", "mixed", "num"}
 		for a := 0; a < 5; a++ {
@@ -1840,18 +1967,51 @@ func TestVerifGensign(t *testing.T) {
 		pans  int
 		kinds = map[string]int{}
 	)
-	for w := 0; w < workers; w++ {
+	// cases with a slow agent (> 10 s per run) each get their own goroutine, so that the batch takes one delay, not their sum
+	slow := map[int]bool{}
+	var order []int
+	for i := range cases {
+		for _, rn := range cases[i].Runs {
+			if rn.Delay == "long" || rn.Delay == "vlong" {
+				slow[i] = true
+			}
+		}
+		if !slow[i] {
+			order = append(order, i)
+		}
+	}
+	var qmu sync.Mutex
+	queue := make(chan int, len(cases))
+	for _, i := range order {
+		queue <- i
+	}
+	close(queue)
+	_ = qmu
+	nworkers := workers + len(slow)
+	slowIdx := make(chan int, len(slow)+1)
+	for i := range slow {
+		slowIdx <- i
+	}
+	close(slowIdx)
+	for w := 0; w < nworkers; w++ {
 		wg.Add(1)
+		isSlowWorker := w >= workers
 		go func() {
 			defer wg.Done()
 			for {
-				mu.Lock()
-				i := next
-				next++
-				mu.Unlock()
-				if i >= len(cases) {
+				var i int
+				var ok bool
+				if isSlowWorker {
+					i, ok = <-slowIdx
+				} else {
+					i, ok = <-queue
+				}
+				if !ok {
 					return
 				}
+				mu.Lock()
+				next++
+				mu.Unlock()
 				mark("start", i)
 				recs, err := zvgRunCase(&cases[i], tmpRoot)
 				mark("done", i)
